@@ -109,7 +109,9 @@ def report(prop, mod, tier, seed, results, wall):
         else: new_viol.append(v)
     structural = sum(1 for r in records if r["verdict"] == "structural")
     decided = [r for r in records if r["verdict"] in ("unsat", "sat")]
-    distinct = len({(json.dumps(r["cfg"], sort_keys=True), r["prog"], r["goal"]) for r in decided})
+    twins_all = [dict(t, cfg=res["cfg"]) for res in results for t in res["twins"]]
+    distinct = len({(json.dumps(r["cfg"], sort_keys=True), r["prog"], r["goal"]) for r in decided}) + \
+        len({(json.dumps(t["cfg"], sort_keys=True), t["prog"], t["twin"]) for t in twins_all if t["verdict"] == "sat"})
     samples = []
     for r in records:
         if r["verdict"] != "structural" and len(samples) < 6: samples.append(r)
@@ -124,11 +126,11 @@ def report(prop, mod, tier, seed, results, wall):
     ev = dict(
         property_id=prop, tier=tier, seed=seed, level="model_checking",
         coverage=dict(
-            evaluations=len(records), distinct_nontrivial=distinct,
-            rule=("one evaluation = one solver query (goal or interpreter obligation) over the symbolic execution of the "
-                  "jaxpr traced from /repo's current source; non-trivial = decided by the SMT solver (phase A0/A1 unsat or "
-                  "phase B sat), as opposed to 'structural' (both sides are the same hash-consed DAG node); distinct = "
-                  "distinct (configuration, program, goal) triples"),
+            evaluations=len(records) + len(twins_all), distinct_nontrivial=distinct,
+            rule=("one evaluation = one query (goal, interpreter obligation, or reachability twin) over the symbolic execution of the "
+                  "jaxpr traced from /repo's current source; non-trivial = decided by the SMT solver (phase A0/A1 unsat, "
+                  "phase B sat; a reachability twin counts when the solver refutes it), as opposed to 'structural' (both sides "
+                  "are the same hash-consed DAG node); distinct = distinct (configuration, program, goal) triples"),
             samples=samples or [dict(note="no queries")],
             structural=structural, solver_decided=len(decided),
             verdicts={v: sum(1 for r in records if r["verdict"] == v) for v in ("structural", "unsat", "sat", "unknown")},
